@@ -53,7 +53,7 @@ func c07DHCP6(entry string, n []uint64, f []string) string {
 	case "d6msg":
 		m, err := ParseMessage(data)
 		if err != nil {
-			return "err 1"
+			return "err"
 		}
 		return c07Ok(c07Msg6(m)...)
 	case "bldd6": // Response.Serialize fed to ParseMessage; argument layout: see run_build entry 84 in RoundTrip.v
@@ -81,7 +81,7 @@ func c07DHCP6(entry string, n []uint64, f []string) string {
 		out = append(make([]byte, 0, len(out)), out...)
 		m, err := ParseMessage(out)
 		if err != nil {
-			return "err 1"
+			return "err"
 		}
 		return c07Ok(append([]string{c07TB(out)}, c07Msg6(m)...)...)
 	case "d6relay":
